@@ -205,10 +205,7 @@ func runSelfTest(repo, verifDir, prop string, spec *propSpec, findings []Finding
 			continue
 		}
 		res.Applied++
-		c := newCtx(P, prop, "thorough", findings)
-		for _, r := range spec.Rules {
-			runRule(c, r)
-		}
+		c, _ := evaluate(P, prop, "thorough", spec, findings)
 		var rules []string
 		seen := map[string]bool{}
 		for _, o := range c.Obls {
